@@ -30,6 +30,12 @@ CHECKS = {
         design="3/C09",
         technique="Lean 4 proof (induction on bit lists) + exhaustive model/code correspondence",
     ),
+    "C11": dict(
+        text="Lean 4 theorems about the model of decompiler.py, for every gate list, qubit count, basis state and every meaning-preserving implementation of sympy's Not/And/Xor: symexec_sound / symexec_entries / symexec_unchanged (induction over the gate list: each reported expression evaluates to the qubit's final value, keys are distinct qubit names, qubits without an expression are unchanged); sections_structure and its index form sections_exact (circuit = B1 R1 sep1 B2 R2 sep2 ...; ranges increasing, disjoint, inside the circuit, start at a classical gate, contain only classical gates and no-ops, gate list = classical gates of the range in order, every classical gate covered, consecutive ranges separated by a non-classical non-nop gate); C11_full for the repaired model, C11_partial for the code as it is off the two listed defects, a decide-witness per defect. ZB_GATES and the class hierarchy of gates.py are regenerated from the source each run. Model tied to the code by exact comparison (error text, index ranges, gate lists; expressions by truth table) on boundary patterns, all gate strings up to length 5 over a 9-letter alphabet on 3 qubits and random circuits; the real decompiler is judged on each by an independent oracle (own run splitter, gate simulator, expression evaluator).",
+        note="Trusted: Lean kernel (axioms propext, Classical.choice, Quot.sound only, audited per run), the ast-based extractor, the correspondence harness; sympy's Not/And/Xor are a parameter assumed meaning-preserving (validated by evaluating every reported expression against the harness' simulator); gate tuples are assumed built by QCircuit.append (arity, distinct wires). A range may include no-ops that follow the run's last classical gate (the code cuts off only one); read as 'barriers ignored'. Open findings: gates.I raises, MCtrl(X) splits a section (patches in docs/fixes).",
+        design="3/C11",
+        technique="Lean 4 proof (induction over gate lists, structural decomposition invariant) + exhaustive/random model-code correspondence + independent oracle on the real code",
+    ),
 }
 
 NOT_YET = {
